@@ -97,12 +97,17 @@ def make_ghost(which):
             return lambda *a, **k: ("called", t, name, a, k)
 
     class LocalView:
+        """`threading.local().__dict__` of the thread that evaluated the attribute access (NOT of whoever uses it later)"""
+
+        def __init__(self, th):
+            self.th = th
+
         def get(self, key, default=None):
             if key != "backend":
                 st.unknown_writes.append(("read-local", key))
                 return default
             d = st.term_of(default) if default is not None else fresh("none", Bk)
-            return SymB(z3.If(z3.Select(st.present, st.me), z3.Select(st.val, st.me), d))
+            return SymB(z3.If(z3.Select(st.present, self.th), z3.Select(st.val, self.th), d))
 
         def __getitem__(self, key):
             return self.get(key)
@@ -110,12 +115,36 @@ def make_ghost(which):
         def __contains__(self, key):
             raise _Undecided("`in` test on the thread-local dict")
 
+        def __setitem__(self, key, v):
+            if key != "backend":
+                st.unknown_writes.append(("local", key))
+                return
+            t = st.term_of(v)
+            st.present = z3.Store(st.present, self.th, True)
+            st.val = z3.Store(st.val, self.th, t)
+            st.log.append(("local[me]" if self.th is st.me else "local[other]", t))
+
+        def pop(self, key, *default):
+            if key != "backend":
+                st.unknown_writes.append(("local", key))
+                return default[0] if default else None
+            old = SymB(z3.Select(st.val, self.th))
+            st.present = z3.Store(st.present, self.th, False)
+            st.log.append(("local[me]-del" if self.th is st.me else "local[other]-del", None))
+            return old
+
+        def __delitem__(self, key):
+            self.pop(key)
+
+        def clear(self):
+            self.pop("backend", None)
+
     class GhostLocal:
         __slots__ = ()
 
         @property
         def __dict__(self):
-            return LocalView()
+            return LocalView(st.me)
 
         def __setattr__(self, k, v):
             if k != "backend":
@@ -237,6 +266,7 @@ class GhostOb(Obligation):
 def _check_frame(st, res, allowed):
     """writes by `me` are exactly to the allowed targets; no unknown shared state is touched; others' slots untouched"""
     targets = [t for t, _ in st.log]
+    res.append(("a selection is never silently dropped (no deletion of the thread's slot)", "local[me]-del" not in targets, f"log={st.log}"))
     res.append((f"frame: writes {sorted(set(targets))} within allowed {sorted(allowed)}", set(targets) <= set(allowed), f"log={st.log}"))
     res.append(("frame: no write to unmodelled shared state", not st.unknown_writes, f"{st.unknown_writes}"))
     res.append(("frame: no write to another thread's slot",) + valid(others_untouched(st)))
@@ -257,11 +287,18 @@ def ob_current(Ghost, SymB, st):
     return res
 
 
-def _set_instance(local):
+def _set_instance(local, alias=None):
     def f(Ghost, SymB, st):
         res = []
-        b = SymB(z3.Const("b", Bk))
-        with interference(st):
+        if alias == "shared-default":
+            # the argument IS the object currently published as the shared default (identity / equality tests in the code take that branch)
+            b = Ghost.__dict__["_backend"]
+            import contextlib as _cl
+            ctxm = _cl.nullcontext()
+        else:
+            b = SymB(z3.Const("b", Bk))
+            ctxm = interference(st)
+        with ctxm:
             Ghost.set_backend(b, local_threadsafe=local)
         res.append(("local[me] == b after set_backend",) + valid(z3.And(z3.Select(st.present, st.me), z3.Select(st.val, st.me) == b._vt_term)))
         res.append(("active(me) == b",) + valid(st.active() == b._vt_term))
@@ -418,7 +455,11 @@ def _nested(local_outer, local_inner):
 
 def ob_dispatch(Ghost, SymB, st):
     res = []
+    # the closure is created by some thread t_create (e.g. at import time) and later called by the thread `me`
+    me_call = st.me
+    st.me = z3.Const("t_create", Th)
     w = Ghost.dispatch_backend_method("some_function", lambda *a, **k: None)
+    st.me = me_call
     # state changes after the closure was created
     b = SymB(z3.Const("b", Bk))
     Ghost.set_backend(b, local_threadsafe=True)
@@ -429,7 +470,10 @@ def ob_dispatch(Ghost, SymB, st):
     if ok:
         res.append(("... of the backend active in the calling thread at call time",) + valid(out[1] == b._vt_term))
     Ghost2, SymB2, st2 = make_ghost("backend" if "BackendManager" == Ghost.__mro__[1].__name__ else "tenalg")
+    me2 = st2.me
+    st2.me = z3.Const("t_create", Th)
     w2 = Ghost2.dispatch_backend_method("f", lambda *a: None)
+    st2.me = me2
     with interference(st2):
         out2 = w2()
     shared_reads = [st2.s0] + [z3.Const(f"shared_h{i}", Bk) for i in range(1, _fresh[0] + 1)]
@@ -564,6 +608,55 @@ def scenario_unknown_backend():
     return before == after, f"before={before} after={after}"
 
 
+@_restore
+def scenario_local_same_as_default():
+    """a thread selects (thread-locally) the backend that happens to be the shared default; a later global change by another
+    thread must not change what the first thread uses"""
+    import tensorly.tenalg as tenalg
+    import threading as th
+    tenalg.set_backend("core")
+    step1, step2 = th.Event(), th.Event()
+    out = {}
+
+    def a():
+        tenalg.set_backend("core", local_threadsafe=True)
+        step1.set()
+        step2.wait(5)
+        out["a"] = tenalg.get_backend()
+    ta = th.Thread(target=a)
+    ta.start()
+    step1.wait(5)
+    _in_thread(lambda: tenalg.set_backend("einsum"))
+    step2.set()
+    ta.join()
+    return out.get("a") == "core", f"thread that selected 'core' thread-locally observes {out.get('a')!r} after another thread published 'einsum'"
+
+
+@_restore
+def scenario_dispatch_other_thread():
+    """a dispatched function called in a worker thread with a thread-local selection must run the worker's backend"""
+    import tensorly.tenalg as tenalg
+    import numpy as np
+    tenalg.set_backend("core")
+    tag = {}
+    def worker():
+        tenalg.set_backend("einsum", local_threadsafe=True)
+        be = tenalg.current_backend()
+        orig = type(be).__dict__["kronecker"]
+        f = orig.__func__ if hasattr(orig, "__func__") else orig
+        def tagged(*a, **k):
+            tag["ran"] = "einsum"
+            return f(*a, **k)
+        type(be).register_method("kronecker", tagged)
+        try:
+            tenalg.kronecker([np.eye(2), np.eye(2)])
+        finally:
+            setattr(type(be), "kronecker", orig)
+        return tenalg.get_backend()
+    name = _in_thread(worker)
+    return tag.get("ran") == "einsum", f"worker selected {name!r} thread-locally; dispatched kronecker ran on {tag.get('ran', 'another backend')!r}"
+
+
 def obligations(tier):
     obs = []
     for which in ("backend", "tenalg"):
@@ -573,6 +666,8 @@ def obligations(tier):
         for local in (True, False):
             fl = "thread-local" if local else "global"
             obs.append(GhostOb(which, f"set_backend(instance) [{fl}]", _set_instance(local), instance=dict(flavour=fl, argument="instance"), clause="write contract + frame"))
+            obs.append(GhostOb(which, f"set_backend(the current shared default instance) [{fl}]", _set_instance(local, "shared-default"), scenario=scenario_local_same_as_default,
+                               instance=dict(flavour=fl, argument="instance-is-shared-default"), clause="write contract + frame (aliasing case)"))
             for preload in (False, True):
                 obs.append(GhostOb(which, f"set_backend(known name, {'already loaded' if preload else 'not yet loaded'}) [{fl}]", _set_name(which, local, preload),
                                    instance=dict(flavour=fl, argument="known-name", loaded=preload), clause="resolution through load_backend + write contract"))
@@ -593,7 +688,7 @@ def obligations(tier):
             for li in (True, False):
                 obs.append(GhostOb(which, f"nested contexts outer={'local' if lo else 'global'} inner={'local' if li else 'global'}", _nested(lo, li),
                                    scenario=loc_ctx_scn if (lo and li) else glob_ctx_scn, instance=dict(outer_local=lo, inner_local=li), clause="nested contexts restore in LIFO order"))
-        obs.append(GhostOb(which, "dispatch closure looks the backend up at call time", ob_dispatch, clause="dynamic dispatch"))
+        obs.append(GhostOb(which, "dispatch closure looks the backend up at call time", ob_dispatch, scenario=scenario_dispatch_other_thread, clause="dynamic dispatch"))
         obs.append(GhostOb(which, "all public functions are dispatched dynamically", ob_dispatch_installed(which), clause="dynamic dispatch installed"))
     return obs
 
